@@ -65,9 +65,6 @@ func ZZH_C19_evict() {
 		}
 	}
 	k := 4
-	if zz.Thorough() {
-		k = 5
-	}
 	nextHash := 0
 	evicted := map[*zzSubmitted]bool{}
 	// pre-state outside the step budget: account 0 already has 0..2 ready transactions in the pool
@@ -87,6 +84,9 @@ func ZZH_C19_evict() {
 		zzCheckBatch(m, mp.ProcessTransactions([]pb.Transaction{tx}, false, true), batchSize)
 		s.admitted = present(s)
 		zz.Assert("C19.evict.pre-state-admitted", s.admitted)
+	}
+	if zz.Thorough() && nReady == 0 {
+		k = 5 // (one more step from the empty pool and from the parked pre-state)
 	}
 	pauses := 0
 	arrivedAt := map[*zzSubmitted]int{} // number of pauses that had passed when the transaction arrived
